@@ -218,6 +218,14 @@ fn run_config(r: &mut Report, exe: &str, work: &str, seed: u64, k: u64, up: &Scr
             up.push(Play::Respond { bytes: format!("HTTP/1.1 200 OK\r\nContent-Length: {}\r\n\r\n{}", body.len(), body).into_bytes(), seg: vec![], gap_us: 0, linger_ms: 0 });
         }
         let mut req = format!("GET {} HTTP/1.1\r\nHost: hv\r\n", route);
+        // one request in six carries many other fields BEFORE X-Forwarded-For (a forwarder appends it after its client's own)
+        if !case.xff.is_empty() && rng.chance(1, 3) || rng.chance(1, 12) {
+            let n = *rng.pick(&[30usize, 62, 63, 64, 65, 100, 200]);
+            for i in 0..n {
+                req.push_str(&format!("X-Filler-{}: {}\r\n", i, i * 7));
+            }
+            r.count("requests_with_many_fields_before_xff", 1);
+        }
         if !case.xff.is_empty() {
             let name = ["X-Forwarded-For", "x-forwarded-for", "X-FORWARDED-FOR"][case.xff_case as usize];
             req.push_str(&format!("{}: {}\r\n", name, case.xff.join(if case.xff_spaces { ", " } else { "," })));
